@@ -59,6 +59,12 @@ LEVEL_TEXT += (
     "the 1-D class reduces the marked array to a set; edge-length "
     "decisions are dimensionally homogeneous; capacity of the "
     "tetrahedral work arrays (open findings); periodic classes refuse.")
+LEVEL_TEXT += (
+    " Added in the second hunting round (DESIGN.md 9.6): "
+    "the sort routines of adaptive refinement are invariant under "
+    "translation (skv/invariance.py); no assert on input data in "
+    "refinement routines; the marked set is converted to integers "
+    "before np.unique.")
 LEVEL_NOTE = ("Trusted: numpy hstack/vstack/arange/reshape. The reference "
               "facet is the one opposite... precisely: local facet 2 = "
               "vertices (0, 2), read from RefTri.facets.")
